@@ -23,6 +23,14 @@ pub fn draw_comment(ch: &Choices) -> VorbisComment {
         let k = *ch.pick("meta.vc.key", &["TITLE", "ARTIST", "ALBUM", "X", "COMMENT"]);
         vc.fields.push(format!("{k}={}", draw_string(ch, 4)));
     }
+    // `fields` is a public Vec<String>: entries that are not NAME=value at all (no '=', empty,
+    // '=' first) are values the writer accepts as well
+    if ch.draw("meta.vc.odd", 4) == 0 {
+        let odd = *ch.pick("meta.vc.odd.kind", &["", "noequals", "=leading", "日本語", "trailing=", " "]);
+        let at = ch.draw("meta.vc.odd.at", vc.fields.len() as u64 + 1) as usize;
+        vc.fields.insert(at, odd.to_string());
+        crate::monitor::probe("meta_comment_entry_without_equals");
+    }
     vc
 }
 
